@@ -162,6 +162,62 @@ func discoverRunners(c *Ctx) []*r3Runner {
 			out = append(out, r)
 		}
 	}
+	// a function that hands two of its channel parameters on to a runner, at the runner's exit and wait
+	// positions, is a runner itself (execute = runInstance + recordExit): the go statements name it
+	for changed := true; changed; {
+		changed = false
+		known := map[*types.Func]*r3Runner{}
+		for _, r := range out {
+			known[r.decl.Obj] = r
+		}
+		for _, d := range c.declsInScope() {
+			if known[d.Obj] != nil || d.Decl.Body == nil {
+				continue
+			}
+			ps := paramVars(d)
+			idxOf := func(e ast.Expr) int {
+				id, ok := unparen(e).(*ast.Ident)
+				if !ok {
+					return -1
+				}
+				for i, p := range ps {
+					if p != nil && d.Pkg.TypesInfo.Uses[id] == types.Object(p) && isChanType(p.Type()) {
+						return i
+					}
+				}
+				return -1
+			}
+			var wr *r3Runner
+			ast.Inspect(d.Decl.Body, func(n ast.Node) bool {
+				call, ok := n.(*ast.CallExpr)
+				if !ok || wr != nil {
+					return wr == nil
+				}
+				f, _ := typeutil.Callee(d.Pkg.TypesInfo, call).(*types.Func)
+				if f == nil {
+					return true
+				}
+				inner := known[f.Origin()]
+				if inner == nil || inner.eIdx >= len(call.Args) || inner.wIdx >= len(call.Args) {
+					return true
+				}
+				ei, wi := idxOf(call.Args[inner.eIdx]), idxOf(call.Args[inner.wIdx])
+				if ei >= 0 && wi >= 0 {
+					wr = &r3Runner{decl: d, eIdx: ei, e: ps[ei], wIdx: wi, w: ps[wi], params: ps}
+					for _, p := range ps {
+						if p != nil && isContextType(p.Type()) && wr.ctx == nil {
+							wr.ctx = p
+						}
+					}
+				}
+				return true
+			})
+			if wr != nil {
+				out = append(out, wr)
+				changed = true
+			}
+		}
+	}
 	return out
 }
 
